@@ -23,6 +23,7 @@ pub struct Probes {
     pub max_queue: usize,
     pub queue_full_on_event: u64,
     pub max_states: usize,
+    pub max_held_layers: usize,
     pub max_extra_waiting: usize,
     pub max_oneshot_keys: usize,
     pub max_active_sequences: usize,
@@ -158,6 +159,7 @@ impl Stepper {
         let p = &mut self.probes;
         p.max_queue = p.max_queue.max(l.queue.len());
         p.max_states = p.max_states.max(l.states.len());
+        p.max_held_layers = p.max_held_layers.max(l.active_held_layers().count());
         p.max_extra_waiting = p.max_extra_waiting.max(l.extra_waiting.len());
         p.max_oneshot_keys = p.max_oneshot_keys.max(l.oneshot.keys.len());
         p.max_active_sequences = p.max_active_sequences.max(l.active_sequences.len());
